@@ -80,12 +80,16 @@ type Focus struct {
 	RestartW   int            // weight of the zero-height restart action (0 = never)
 	ParamChangeW int          // weight of a governance parameter change (0 = never)
 	DenomChangePct int        // percent of the parameter changes that move the base denomination (0 = never)
+	ForeignPricePct int       // percent of the prices quoted in the token that is not the base denomination, when the host runs an exchange-rate service (an eighth of it otherwise; 0 = never)
+	ExchangePct int           // percent of those cases whose host runs an exchange-rate service
+	ForeignCasePct int        // percent of the cases that quote prices in the second token
 	Only20Pct  int            // percent of cases restricted to 20-byte addresses everywhere (avoids a listed finding's trigger)
 	only20     bool           // drawn per case
+	foreign    bool           // drawn per case: prices in the second token (and no base-denomination change)
 }
 
 func FocusFor(prop string, tier string) Focus {
-	f := Focus{Prop: prop, MaxSteps: 32, W: map[string]int{}, WrongSign: 15, ModSvcPct: 15, Boundary: 0, PrefixProv: 20, PreludePct: 50, RestartW: 1, ParamChangeW: 1, DenomChangePct: 20}
+	f := Focus{Prop: prop, MaxSteps: 32, W: map[string]int{}, WrongSign: 15, ModSvcPct: 15, Boundary: 0, PrefixProv: 20, PreludePct: 50, RestartW: 1, ParamChangeW: 1, DenomChangePct: 20, ForeignPricePct: 40, ExchangePct: 70, ForeignCasePct: 25}
 	if tier == "thorough" {
 		f.MaxSteps = 70
 	}
@@ -186,6 +190,13 @@ func GenConfig(t *rapid.T, f Focus) Config {
 		}
 		c.Funding[s] = rapid.SampledFrom(opts).Draw(t, fmt.Sprintf("fund%d", i))
 	}
+	if f.foreign && pct(t, "exchange_service", f.ExchangePct) {
+		c.ExchangeRate = "1"
+		if f.Prop != "C07" && pct(t, "rate_not_one", 40) {
+			// C07 states the fee in terms of the published price alone: only the rate 1 keeps it literally true
+			c.ExchangeRate = pick(t, "rate", []string{"2", "0.5", "3"})
+		}
+	}
 	if f.Prop == "C09" && pct(t, "reactive_module", 30) {
 		c.Reactive = true
 	}
@@ -237,6 +248,11 @@ func NewGenState(cfg Config, f Focus, s *Snapshot) *GenState {
 // DrawCaseFlags draws the per-case generator switches
 func (f *Focus) DrawCaseFlags(t *rapid.T) {
 	f.only20 = pct(t, "only_20_byte_addresses", f.Only20Pct)
+	// a case either quotes some prices in the second token (with or without an exchange-rate
+	// service on the host) or lets governance move the base denomination, never both: what the
+	// minimum deposit of a "point" price means once "point" is the base denomination, with every
+	// deposit in "stake", is not something the properties settle
+	f.foreign = pct(t, "foreign_price_case", f.ForeignCasePct)
 }
 
 func (g *GenState) Observe(r *StepRec) {
@@ -266,10 +282,26 @@ func fmtTime(ns int64) string { return time.Unix(0, ns).UTC().Format(time.RFC333
 var discounts = []string{"0.5", "0.9", "0.3", "0.333333333333333333", "0.1", "0.000001", "0.999999", "0.333333"}
 
 // GenPricing draws a pricing text accepted by the module's schema and contract.
-func GenPricing(t *rapid.T, nowNs int64) string {
+func GenPricing(t *rapid.T, nowNs int64) string { return GenPricingIn(t, nowNs, "stake") }
+
+// genPriceDenom: the token a new price is quoted in. Prices in the other token are drawn only in
+// the foci that model them (ForeignPricePct): often when the host runs an exchange-rate service,
+// rarely when it does not (such a provider cannot be priced and never qualifies).
+func (g *GenState) genPriceDenom(t *rapid.T) string {
+	if !g.F.foreign {
+		return "stake"
+	}
+	if pct(t, "foreign_price", g.F.ForeignPricePct) {
+		return "point"
+	}
+	return "stake"
+}
+
+// GenPricingIn draws a pricing text quoted in the given token.
+func GenPricingIn(t *rapid.T, nowNs int64, denom string) string {
 	price := rapid.SampledFrom([]string{"10", "1", "0", "2", "20", "3", "0.5", "1.9", "100", "999", "1000000"}).Draw(t, "price")
 	var sb strings.Builder
-	fmt.Fprintf(&sb, `{"price":"%sstake"`, price)
+	fmt.Fprintf(&sb, `{"price":"%s%s"`, price, denom)
 	nt := rapid.SampledFrom([]int{0, 0, 1, 2, 3}).Draw(t, "n_time")
 	if nt > 0 {
 		sb.WriteString(`,"promotions_by_time":[`)
@@ -403,7 +435,7 @@ func (g *GenState) basePriceOf(b types.ServiceBinding) int64 {
 	if err != nil {
 		return 0
 	}
-	return rp.Base
+	return g.Cfg.InBase(rp)
 }
 
 func (g *GenState) genDepositAround(t *rapid.T, threshold int64, have int64) *int64 {
@@ -696,10 +728,10 @@ func (g *GenState) GenPrelude(t *rapid.T) []Action {
 		if pct(t, "pre_other_owner", 30) {
 			owner = pick(t, "pre_owner2", Signers[:3])
 		}
-		pricing := GenPricing(t, g.Snap.TimeNs)
+		pricing := GenPricingIn(t, g.Snap.TimeNs, g.genPriceDenom(t))
 		base := int64(0)
 		if rp, err := ParseRefPricing(pricing); err == nil {
-			base = rp.Base
+			base = g.Cfg.InBase(rp)
 		}
 		dep := g.Cfg.MinDepositFor(base) + pick(t, "pre_dep_extra", []int64{0, 1, 500})
 		if dep <= 0 {
@@ -940,7 +972,7 @@ func (g *GenState) genOfKind(t *rapid.T, kind string) Action {
 		n := g.Cfg
 		n.Funding, n.ModSvc = nil, nil
 		which := pick(t, "param", []string{"min_deposit", "multiple", "slash", "tax", "periods", "max_timeout"})
-		if g.F.DenomChangePct > 0 && pct(t, "denom_change", g.F.DenomChangePct) {
+		if g.F.DenomChangePct > 0 && !g.F.foreign && pct(t, "denom_change", g.F.DenomChangePct) {
 			which = "base_denom"
 		}
 		switch which {
@@ -998,10 +1030,10 @@ func (g *GenState) genOfKind(t *rapid.T, kind string) Action {
 		if o, ok := s.Owner[prov]; ok {
 			owner = g.signerFor(t, o)
 		}
-		pricing := GenPricing(t, s.TimeNs)
+		pricing := GenPricingIn(t, s.TimeNs, g.genPriceDenom(t))
 		base := int64(0)
 		if rp, err := ParseRefPricing(pricing); err == nil {
-			base = rp.Base
+			base = g.Cfg.InBase(rp)
 		}
 		return Action{Kind: KBind, Signer: owner, Service: svc, Provider: prov,
 			Deposit: g.genDepositAround(t, g.Cfg.MinDepositFor(base), 0), Pricing: pricing,
@@ -1021,12 +1053,12 @@ func (g *GenState) genOfKind(t *rapid.T, kind string) Action {
 			a.Options = "{}"
 			newBase := g.basePriceOf(b)
 			if pct(t, "upd_pricing", 50) {
-				a.Pricing = GenPricing(t, s.TimeNs)
+				a.Pricing = GenPricingIn(t, s.TimeNs, g.genPriceDenom(t))
 				if pct(t, "upd_same_pricing", 12) {
 					a.Pricing = b.Pricing // a client re-submitting the full, unchanged specification
 				}
 				if rp, err := ParseRefPricing(a.Pricing); err == nil {
-					newBase = rp.Base
+					newBase = g.Cfg.InBase(rp)
 				}
 			}
 			if pct(t, "upd_deposit", 50) {
